@@ -69,7 +69,7 @@ package arg
 // equal on two valid values of the same type (how EqualsExpr.Eval uses it after Resolve).
 //@ pure func eq_plain_kind(k reflect.Kind) bool = k != reflect.Interface && k != reflect.Ptr && k != reflect.Invalid
 //@ func equal
-//@   props C18
+//@   props C18 C04
 //@   requires same_typed: rv_valid(lhsV) && rv_valid(rhsV) && rv_type(lhsV) == rv_type(rhsV) && rv_kind(lhsV) == rv_kind(rhsV)
 //@   assigns nothing
 //@   ensures two_nils_equal: kind_nilable(rv_kind(lhsV)) && rv_kind(lhsV) != reflect.UnsafePointer && rv_isnil(lhsV) && rv_isnil(rhsV) ==> result
